@@ -49,9 +49,11 @@ func (r *Result) Bad(key, pos, detail string)     { r.add(Violated, key, pos, ""
 func (r *Result) Unknown(key, pos, detail string) { r.add(Undecided, key, pos, "", detail) }
 func (r *Result) Inform(key, pos, detail string)  { r.add(Info, key, pos, "", detail) }
 func (r *Result) Note(format string, a ...any)    { r.Notes = append(r.Notes, fmt.Sprintf(format, a...)) }
-func (r *Result) Assume(format string, a ...any)  { r.Assumptions = append(r.Assumptions, fmt.Sprintf(format, a...)) }
-func (r *Result) Count(what string, n int)        { r.Analysed[what] += n }
-func (r *Result) Fail(err error) *Result          { r.Err = err; return r }
+func (r *Result) Assume(format string, a ...any) {
+	r.Assumptions = append(r.Assumptions, fmt.Sprintf(format, a...))
+}
+func (r *Result) Count(what string, n int) { r.Analysed[what] += n }
+func (r *Result) Fail(err error) *Result   { r.Err = err; return r }
 func (r *Result) Failf(format string, a ...any) *Result {
 	r.Err = &AnchorError{fmt.Sprintf(format, a...)}
 	return r
